@@ -643,6 +643,9 @@ def shape_tags(problem):
                     tags.add("conflicting-conditional-assignments")
                 if f.type.is_user_type() and len([e for e in es if e.is_assignment()]) > 1:
                     tags.add("object-fluent-assigned-twice-in-one-action")
+                asg = [e for e in es if e.is_assignment()]
+                if conds and len(set(str(e.value) for e in asg)) > 1:
+                    tags.add("syntactically-different-assignments-to-one-fluent")
         for e in effs:
             if e.is_conditional() and (e.is_increase() or e.is_decrease()):
                 c = e.condition
